@@ -246,6 +246,12 @@ CHECKS["C16"] = {
     "assumptions": ["synctest.Wait quiescence"],
     "units": [
         {"name": "mqttproxy", "pkg": "pkg/object/mqttproxy", "test": "TestVerifC16", "inject": [BROKERRIG], "instrument": BROKERINSTR},
+        {"name": "takeoversched", "pkg": "pkg/object/mqttproxy", "test": "TestVerifC16sched", "inject": [BROKERRIG], "gomaxprocs": 1, "workers": 4,
+         "instrument": [dict(BROKERINSTR[0], imports={"net": "vnet", "sync": "vsync", "sync/atomic": "vatomic"}),
+                        {"file": "pkg/object/mqttproxy/client.go", "imports": {"sync": "vsync", "sync/atomic": "vatomic"}},
+                        {"file": "pkg/object/mqttproxy/session_manager.go", "imports": {"sync": "vsync"}},
+                        {"file": "pkg/object/mqttproxy/session.go", "imports": {"sync": "vsync"}},
+                        dict(TOPICINSTR, imports={"sync": "vsync"})]},
     ],
 }
 
